@@ -461,7 +461,23 @@ func (w *World) modelVector(extra ...*Term) ([]ndValue, Result) {
 	var vals []*Term
 	var r Result = Unknown
 	if v, ok := w.ext["prefer"]; ok && len(v.([]*Term)) > 0 {
-		vals, r = w.sol.ModelWith(want, append(append([]*Term{}, extra...), v.([]*Term)...)...)
+		// soft constraints: all at once if possible, else greedily one by one
+		prefs := v.([]*Term)
+		all := append(append([]*Term{}, extra...), prefs...)
+		if w.sol.CheckWith(all...) == Sat {
+			vals, r = w.sol.ModelWith(want, all...)
+		} else if w.sol.CheckWith(extra...) == Sat {
+			kept := append([]*Term{}, extra...)
+			for i, p := range prefs {
+				if i > 400 {
+					break
+				}
+				if w.sol.CheckWith(append(kept, p)...) == Sat {
+					kept = append(kept, p)
+				}
+			}
+			vals, r = w.sol.ModelWith(want, kept...)
+		}
 	}
 	if r != Sat {
 		vals, r = w.sol.ModelWith(want, extra...)
